@@ -19,12 +19,15 @@
    the final-name objects (bytes and protection); temp files and state rows (a cache) are ignored.
    The recover theorems assume a collision-free digest (H_inj) - satisfiable, see z_inj.
    Partial by nature: durability (fsync, power loss, torn rename) is an environment hypothesis -
-   a step is atomic and a crash loses no completed step.  The generator theorems cover the
-   directory object written from the in-memory staging store (stage+transfer, upload, save); the
-   store->store transfer (directory object copied local->local) is covered by C15_prefix through
-   [valid_trace] of its recorded traces, not by a generator theorem. *)
+   a step is atomic and a crash loses no completed step.  Generator theorems exist for every
+   scenario program the harness checks against real traces: stage+transfer / upload (directory object
+   from memory), store->store transfer (directory object copied local->local), ONE transfer() over
+   several directories sharing files (files go up with the FIRST directory listing them), index.save
+   without and with effective verification (per-call flag or the store's default).  Not covered by a
+   generator theorem: transfers with per-call verify=True (vtransfer_prog, mt_loop with v = true) and a
+   corrupt SOURCE object - both through [valid_trace] / [crash_inv_b] of the recorded traces only. *)
 From Coq Require Import NArith List Bool.
-From DvcData Require Import Base.Val Model.AddSteps Proofs.AddStepsProofs Proofs.AddStepsProgs Proofs.AddStepsRecover Proofs.AddStepsVerify Proofs.AddStepsRecoverVerify Proofs.AddStepsExamples.
+From DvcData Require Import Base.Val Model.AddSteps Proofs.AddStepsProofs Proofs.AddStepsProgs Proofs.AddStepsRecover Proofs.AddStepsVerify Proofs.AddStepsRecoverVerify Proofs.AddStepsMulti Proofs.AddStepsMultiRecover Proofs.AddStepsExamples.
 Import ListNotations.
 Open Scope N_scope.
 
@@ -130,18 +133,20 @@ Theorem C15_recover_check_exists_restricted :
 Proof. exact save_recover_restricted. Qed.
 Print Assumptions C15_recover_check_exists_restricted.
 
-(* with effective verification (save(..., verify=True): pre-add check, copies, per-oid check +
-   protect, state) index.save is crash-safe at every prefix ... *)
+(* with EFFECTIVE verification of the files - the per-call flag vf (save(..., verify=True)) or the
+   store's default vd (odb.verify=True; then the directory objects are verified too) - index.save is
+   crash-safe at every prefix ... *)
 Theorem C15_prefix_save_verify :
   forall (bytes : Type) (H : bytes -> oid) (kids : bytes -> list oid) (empty : bytes)
          (part : bytes -> bytes),
     kids empty = [] ->
-    forall t files dirs w n,
+    forall vf vd t files dirs w n,
+      vf || vd = true ->
       inv bytes H kids w -> w_pend w = None -> all_ok bytes H w ->
       files_ok bytes H files -> (forall d, In d dirs -> dir_ok bytes H kids files d) ->
       crash_inv bytes H kids
-        (crash bytes (run bytes empty (firstn n (save_gen bytes H empty part true false t files dirs w)) w)).
-Proof. exact save_verify_prefix_crash_inv. Qed.
+        (crash bytes (run bytes empty (firstn n (save_gen bytes H empty part vf vd t files dirs w)) w)).
+Proof. exact save_everify_prefix_crash_inv. Qed.
 Print Assumptions C15_prefix_save_verify.
 
 (* ... and its re-run through add(check_exists=True) recovers at EVERY crash point n, the reflink-probe
@@ -151,15 +156,90 @@ Theorem C15_recover_verify :
          (part : bytes -> bytes),
     kids empty = [] ->
     (forall b b', base (H b) = base (H b') -> b = b') ->
-    forall t t' files dirs w0 n,
+    forall vf vd t t' files dirs w0 n,
+      vf || vd = true ->
       inv bytes H kids w0 -> w_pend w0 = None -> all_ok bytes H w0 ->
       files_ok bytes H files -> (forall d, In d dirs -> dir_ok bytes H kids files d) ->
-      let p0 := save_gen bytes H empty part true false t files dirs w0 in
+      let p0 := save_gen bytes H empty part vf vd t files dirs w0 in
       let wc := crash bytes (run bytes empty (firstn n p0) w0) in
-      let p1 := save_gen bytes H empty part true false t' files dirs wc in
+      let p1 := save_gen bytes H empty part vf vd t' files dirs wc in
       valid_trace bytes H kids empty p1 wc = true /\
       (forall m, crash_inv bytes H kids (crash bytes (run bytes empty (firstn m p1) wc))) /\
       store_eq bytes (run bytes empty p1 wc) (run bytes empty p0 w0) /\
       (forall o, save_req bytes files dirs o -> good bytes H (run bytes empty p1 wc) o).
-Proof. exact save_verify_recover. Qed.
+Proof. exact save_everify_recover. Qed.
 Print Assumptions C15_recover_verify.
+
+(* store -> store transfer: the directory object is copied local->local (reflink probe, temp copy,
+   rename) after its files *)
+Theorem C15_prefix_store_transfer :
+  forall (bytes : Type) (H : bytes -> oid) (kids : bytes -> list oid) (empty : bytes)
+         (part : bytes -> bytes),
+    kids empty = [] ->
+    forall t qs files d w n,
+      inv bytes H kids w -> w_pend w = None ->
+      files_ok bytes H files -> dir_ok bytes H kids files d -> requested bytes files d qs ->
+      crash_inv bytes H kids
+        (crash bytes (run bytes empty (firstn n (transfer_prog bytes H empty part false t qs files d w)) w)).
+Proof. exact store_transfer_prefix_crash_inv. Qed.
+Print Assumptions C15_prefix_store_transfer.
+
+Theorem C15_recover_store_transfer :
+  forall (bytes : Type) (H : bytes -> oid) (kids : bytes -> list oid) (empty : bytes)
+         (part : bytes -> bytes),
+    kids empty = [] ->
+    (forall b b', base (H b) = base (H b') -> b = b') ->
+    forall mem t t' qs qs' files d w0 n,
+      inv bytes H kids w0 -> w_pend w0 = None ->
+      files_ok bytes H files -> dir_ok bytes H kids files d ->
+      requested bytes files d qs -> requested bytes files d qs' ->
+      let p0 := transfer_prog bytes H empty part mem t qs files d w0 in
+      let wc := crash bytes (run bytes empty (firstn n p0) w0) in
+      let p1 := transfer_prog bytes H empty part mem t' qs' files d wc in
+      valid_trace bytes H kids empty p1 wc = true /\
+      (forall m, crash_inv bytes H kids (crash bytes (run bytes empty (firstn m p1) wc))) /\
+      store_eq bytes (run bytes empty p1 wc) (run bytes empty p0 w0) /\
+      (forall o, In o qs -> good bytes H (run bytes empty p1 wc) o).
+Proof. exact transfer_recover_any. Qed.
+Print Assumptions C15_recover_store_transfer.
+
+(* ONE transfer() over several directories that share files: for every directory order [ds], every file
+   order [forder], every query order [qs], the ownership computed as _do_transfer does (a shared file
+   goes up with the FIRST new directory listing it, before that directory's object), the directory
+   objects from memory or copied (mem) - crash-safe at every prefix from any store satisfying inv *)
+Theorem C15_prefix_mtransfer :
+  forall (bytes : Type) (H : bytes -> oid) (kids : bytes -> list oid) (empty : bytes)
+         (part : bytes -> bytes),
+    kids empty = [] ->
+    forall mem t qs ds forder w n,
+      inv bytes H kids w -> w_pend w = None ->
+      files_ok bytes H forder -> (forall d, In d ds -> dir_ok bytes H kids forder d) ->
+      NoDup (map fst ds) -> mrequested bytes forder ds qs ->
+      crash_inv bytes H kids
+        (crash bytes (run bytes empty (firstn n (mtransfer_prog bytes H kids empty part false mem t qs ds forder w)) w)).
+Proof. exact mtransfer_prefix_crash_inv. Qed.
+Print Assumptions C15_prefix_mtransfer.
+
+(* ... and the re-run after a crash at ANY point - iterating directories and files in any other order -
+   converges to the uninterrupted result *)
+Theorem C15_recover_mtransfer :
+  forall (bytes : Type) (H : bytes -> oid) (kids : bytes -> list oid) (empty : bytes)
+         (part : bytes -> bytes),
+    kids empty = [] ->
+    (forall b b', base (H b) = base (H b') -> b = b') ->
+    forall mem t t' qs qs' ds ds' forder forder' w0 n,
+      inv bytes H kids w0 -> w_pend w0 = None ->
+      files_ok bytes H forder -> (forall d, In d ds -> dir_ok bytes H kids forder d) ->
+      NoDup (map fst ds) -> mrequested bytes forder ds qs ->
+      files_ok bytes H forder' -> (forall d, In d ds' -> dir_ok bytes H kids forder' d) ->
+      NoDup (map fst ds') -> mrequested bytes forder' ds' qs' ->
+      (forall o, In o qs <-> In o qs') ->
+      let p0 := mtransfer_prog bytes H kids empty part false mem t qs ds forder w0 in
+      let wc := crash bytes (run bytes empty (firstn n p0) w0) in
+      let p1 := mtransfer_prog bytes H kids empty part false mem t' qs' ds' forder' wc in
+      valid_trace bytes H kids empty p1 wc = true /\
+      (forall m, crash_inv bytes H kids (crash bytes (run bytes empty (firstn m p1) wc))) /\
+      store_eq bytes (run bytes empty p1 wc) (run bytes empty p0 w0) /\
+      (forall o, In o qs -> good bytes H (run bytes empty p1 wc) o).
+Proof. exact mtransfer_recover. Qed.
+Print Assumptions C15_recover_mtransfer.
